@@ -55,6 +55,9 @@ claimed = {
  "C11": dict(cat="model_checking", tech="bounded exhaustive enumeration of (snapshot x ordered pairs of later updates x update path) on the real code + stateless schedule exploration of a reader vs an update with the race detector on every schedule",
              text="For every list function with numeric identifiers: objects retained by the application (value given to SetData, DataCopy of local and remote feature, data of the last data-change event, and every snapshot taken after each step) are photographed and compared after every update of every ordered pair from a menu of 8 shapes through 5 paths (local API, remote write, notify, reply, non-persisting UpdateData); non-persisting and rejected updates must leave the store unchanged; use-case snapshots vs later use-case operations; schedules: encoding a snapshot while a selector update / partial notify / remote write / use-case change is processed, functional comparison and race detector on every interleaving.",
              ref="4 C11"),
+ "C06": dict(cat="model_checking", tech="explicit-state BFS over discovery-notification histories on the real code, reference tree and reference registries stepped alongside",
+             text="BFS (depth 3 quick / 4 thorough, de-duplicated on tree + registries) over partial add/remove notifications for entities [1],[2],[1,1] in two variants, two-entity notifications (add+add, remove+remove, add+remove, remove+add), full notifications of entity subsets, repeated adds and removal of unknown entities from two peers, starting from a world with subscriptions, bindings and local client bookkeeping; after each message the tree reported by the API (addresses, types, descriptions, features, roles, operations, resolution by address), the entity events and the cascade into registries and bookkeeping are compared with the reference.",
+             ref="4 C06"),
 }
 checks = []
 for pid, c in sorted(claimed.items()):
